@@ -320,11 +320,13 @@ class P8Formatter(BaseFormatter):
 
         outstr.write(bytes('version %s\n' % game.version, 'utf-8'))
 
-        # Sanity-check the Lua written by the writer.
+        # Sanity-check the Lua written by the writer. (Run the writer only
+        # once: what is checked is what gets written, and a writer's inputs,
+        # such as a list of names read from a pipe, are consumed only once.)
+        lua_lines = list(game.lua.to_lines(writer_cls=lua_writer_cls,
+                                           writer_args=lua_writer_args))
         transformed_lua = lua.Lua.from_lines(
-            game.lua.to_lines(writer_cls=lua_writer_cls,
-                              writer_args=lua_writer_args),
-            version=(game.version or 0))
+            lua_lines, version=(game.version or 0))
         if transformed_lua.get_char_count() > lua.PICO8_LUA_CHAR_LIMIT:
             if filename is not None:
                 util.error('{}: '.format(filename))
@@ -342,9 +344,7 @@ class P8Formatter(BaseFormatter):
 
         outstr.write(b'__lua__\n')
         ended_in_newline = None
-        for line in game.lua.to_lines(
-                writer_cls=lua_writer_cls,
-                writer_args=lua_writer_args):
+        for line in lua_lines:
             outstr.write(bytes(lua.p8scii_to_unicode(line), 'utf-8'))
             ended_in_newline = line.endswith(b'\n')
         if not ended_in_newline:
